@@ -39,6 +39,10 @@ pub struct Client {
     /// the server is dropped without accept (the client, if `connects`, still connects and sends)
     pub unused: bool,
     pub connects: bool,
+    /// the client connects, sends nothing and goes away; then accept is called: it must come back
+    /// with an error (there is no first message) and leave nothing behind
+    #[serde(default)]
+    pub silent: bool,
 }
 
 #[derive(Clone, Debug, Serialize, Deserialize)]
@@ -179,8 +183,8 @@ impl Prop for C08 {
 
     fn strategy(ctx: &Ctx) -> BoxedStrategy<Case> {
         let max_servers = if ctx.thorough { 200 } else { 24 };
-        let client = (0u8..3, proptest::collection::vec((prop_oneof![5 => Just(0u8), 1 => 1u8..4], proptest::bool::weighted(0.3)), 1..=20), 0u8..4, proptest::bool::weighted(0.15), proptest::bool::weighted(0.85)).prop_map(
-            |(kind, mut msgs, order, unused, connects)| {
+        let client = (0u8..3, proptest::collection::vec((prop_oneof![5 => Just(0u8), 1 => 1u8..4], proptest::bool::weighted(0.3)), 1..=20), 0u8..4, proptest::bool::weighted(0.15), proptest::bool::weighted(0.85), proptest::bool::weighted(0.08)).prop_map(
+            |(kind, mut msgs, order, unused, connects, silent)| {
                 let mut multi = 0;
                 for m in msgs.iter_mut() {
                     if m.0 > 0 {
@@ -190,7 +194,7 @@ impl Prop for C08 {
                         }
                     }
                 }
-                Client { kind, msgs, order, unused, connects }
+                Client { kind, msgs, order, unused, connects, silent }
             },
         );
         (prop_oneof![4 => proptest::collection::vec(client.clone(), 1..=6), 1 => proptest::collection::vec(client, 1..=max_servers)], proptest::bool::weighted(0.2))
@@ -298,9 +302,22 @@ fn run(ctx: &Ctx, case: &Case) -> Result<Outcome, Failure> {
     let mut stats = (0u32, 0u32, 0u32); // queued-before-accept, exited-before-accept, unused
     let mut pending_clients: Vec<(usize, Running)> = vec![];
     let mut big_readers: Vec<usize> = vec![];
+    let mut silent_clients = 0u64;
     for (i, c) in case.clients.iter().enumerate() {
         let name = names[i].clone();
         let what = format!("server {} ({} messages, order {}, client kind {})", i, c.msgs.len(), c.order % 4, c.kind % 3);
+        if c.silent && !c.unused {
+            let r = start_client(ctx, c.kind % 2, name, i as u32, vec![], false)?;
+            finish_client(r, &what)?;
+            let server = servers[i].take().unwrap();
+            match sandbox::watched(move || server.accept().map(|_| ())) {
+                Ok(Err(_)) => {},
+                Ok(Ok(())) => fail!("oneshot:accept-invented-message", "{}: the client connected, sent nothing and went away, yet accept returned a first message", what),
+                Err(h) => return Err(sandbox::hang_failure("oneshot:accept-hangs", &format!("{}: the client connected, sent nothing and went away", what), h)),
+            }
+            silent_clients += 1;
+            continue;
+        }
         if c.unused {
             stats.2 += 1;
             // dropped without accept; a client may have connected and sent before
@@ -457,6 +474,7 @@ fn run(ctx: &Ctx, case: &Case) -> Result<Outcome, Failure> {
         if stats.0 > 0 { "+queued-before-accept" } else { "" },
         if stats.1 > 0 { "+client-gone-before-accept" } else { "" },
         if stats.2 > 0 { "+dropped-unused" } else { "" }
-    ) + if big_readers.is_empty() { "" } else { "+messages-beyond-the-buffers" };
-    Ok(Outcome::new(nt, class).with("servers", n as u64))
+    ) + if big_readers.is_empty() { "" } else { "+messages-beyond-the-buffers" }
+        + if silent_clients > 0 { "+silent-client" } else { "" };
+    Ok(Outcome::new(nt, class).with("servers", n as u64).with("silent_clients", silent_clients))
 }
